@@ -1,1 +1,58 @@
-//! Shared query model: small-graph enumeration, query AST, naive reference evaluator, renderers (owned by the C08 checker).
+//! Shared query model (owned by the C08 checker, reused by C09 / C10 / C11).
+//!
+//! # What is here
+//!
+//! * [`graph`] — [`QGraph`] (plain-Rust property multigraph), [`GraphSpace`] (explicit finite
+//!   product of node kinds x edge kinds x sizes) with [`GraphSpace::enumerate`] (one graph per
+//!   isomorphism class, simplest first), [`load`] / [`load_into`] (fresh in-memory `GrafeoDB`
+//!   through the non-transactional create API, returns the [`IdMap`]), `QGraph::shrinks`,
+//!   `QGraph::features`, JSON round trip.
+//! * [`ast`] — [`Query`] and friends: comma-separated path patterns (node, fixed hops with
+//!   direction / type / labels, variable-length hop), [`Pred`] (comparison of property with
+//!   literal or property, AND / OR / NOT with or without parentheses, IS NULL), [`Item`]
+//!   (variable, property, aggregate), DISTINCT, [`OrderBy`], SKIP / LIMIT; `Query::features`
+//!   (clause-shape map for signatures), `Query::shrinks`, JSON round trip.
+//! * [`enumerate`] — [`all_queries`]`(depth_bound)`: the core grammar in deterministic
+//!   simplest-first order (weight = number of non-default clause features).
+//! * [`render`] — [`render`]`(query, lang) -> Option<String>` for [`Lang::Gql`], [`Lang::Cypher`],
+//!   [`Lang::Gremlin`], [`Lang::GraphQL`].
+//! * [`eval`] — [`eval`]`(graph, ids, query, opts) -> RefAnswer`: naive all-bindings evaluator
+//!   (homomorphism / walk semantics, three-valued WHERE), [`bindings`].
+//! * [`compare`] — [`compare`] (engine rows vs reference, with the explicit tolerances),
+//!   [`canon_rows`], [`multiset`], [`answers_agree`].
+//! * [`exec`] — [`run_query`], [`run_query_session`], [`exec_session`] (panic-catching).
+//!
+//! # Typical use
+//!
+//! ```ignore
+//! let (graphs, _) = GraphSpace { max_nodes: 2, max_edges: 2, node_kinds: GraphSpace::core_node_kinds(), edge_kinds: GraphSpace::plain_edge_kinds() }.enumerate();
+//! let queries = all_queries(3);
+//! for g in &graphs {
+//!     let (db, ids) = load(g);
+//!     let s = db.session();
+//!     for q in &queries {
+//!         let want = eval(g, &ids, q, EvalOpts::default());
+//!         if let Some(text) = render(q, Lang::Gql) {
+//!             if let Exec::Rows(rows) = exec_session(&s, Lang::Gql, &text) {
+//!                 let v = compare(&rows, &want, None);
+//!             }
+//!         }
+//!     }
+//! }
+//! ```
+
+pub mod ast;
+pub mod compare;
+pub mod enumerate;
+pub mod eval;
+pub mod exec;
+pub mod graph;
+pub mod render;
+
+pub use ast::*;
+pub use compare::{CVal, Verdict, answers_agree, canon_rows, canon_value, compare, compare_one, multiset};
+pub use enumerate::{all_queries, all_queries_weighted};
+pub use eval::{Binding, Bound, EvalOpts, RefAnswer, bindings, cmp_values, eval, eval_cmp};
+pub use exec::{Exec, exec_session, run_query, run_query_session};
+pub use graph::{EdgeKind, GraphSpace, IdMap, NodeKind, QEdge, QGraph, QNode, load, load_into};
+pub use render::{Lang, render, render_gql_like, render_graphql, render_gremlin, render_pred};
